@@ -194,10 +194,39 @@ def _tailify(stmts: List[ast.stmt], emit) -> Optional[List[ast.stmt]]:
                 new = ast.If(test=s.test, body=b or [ast.Pass()], orelse=o)
                 out.append(ast.copy_location(new, s))
                 return out
+            if isinstance(s, ast.Try) and not any(_returns_in(x) for x in s.body + s.finalbody + s.orelse):
+                # returns only in the handlers, and every handler leaves (return / raise): what follows the try runs exactly when its
+                # body completed - it moves into the else clause
+                rest = stmts[i + 1:]
+                hs = []
+                for h in s.handlers:
+                    if not _always_leaves(h.body):
+                        return None
+                    hb = _tailify(list(h.body), emit) if _returns_in(h) else list(h.body)
+                    if hb is None:
+                        return None
+                    hs.append(ast.copy_location(ast.ExceptHandler(type=h.type, name=h.name, body=hb or [ast.Pass()]), h))
+                tail = _tailify(list(rest), emit)
+                if tail is None:
+                    return None
+                new = ast.Try(body=s.body, handlers=hs, orelse=list(s.orelse) + tail, finalbody=s.finalbody)
+                out.append(ast.copy_location(new, s))
+                return out
             return None
         out.append(s)
     out.extend(emit(None))
     return out
+
+
+def _always_leaves(body: List[ast.stmt]) -> bool:
+    if not body:
+        return False
+    last = body[-1]
+    if isinstance(last, (ast.Return, ast.Raise)):
+        return True
+    if isinstance(last, ast.If) and last.orelse:
+        return _always_leaves(last.body) and _always_leaves(last.orelse)
+    return False
 
 
 def _as_expr(stmts: List[ast.stmt]) -> Optional[ast.AST]:
@@ -351,8 +380,10 @@ class Inliner:
             return e, f.id, False
         return None
 
-    def _splice_stmt(self, s: ast.stmt) -> Optional[List[ast.stmt]]:
-        """Replacement statements for *s* if it is a statement-level helper call, else None."""
+    def _splice_stmt(self, s: ast.stmt, flag_if: Optional[ast.If] = None) -> Optional[List[ast.stmt]]:
+        """Replacement statements for *s* if it is a statement-level helper call, else None.  *flag_if*: the statement that follows
+        ``ok = self._helper(..)`` when it is ``if [not] ok: ...`` and nothing else reads ``ok`` - a helper that reports success
+        with constant returns is then inlined with each ``return True / False`` replaced by what the caller does in that case."""
         hit = None
         if isinstance(s, ast.Expr):
             hit = self._call_of(s.value)
@@ -429,8 +460,21 @@ class Inliner:
             res = list(body)
             if not (res and isinstance(res[-1], (ast.Return, ast.Raise))):
                 res.append(ast.Return(value=ast.Constant(value=None)))
+        elif mode == "assign" and flag_if is not None:
+            neg_ = isinstance(flag_if.test, ast.UnaryOp)
+
+            def emit(v):
+                val = bool(v.value) if isinstance(v, ast.Constant) else False       # falling off the end returns None
+                taken = (not val) if neg_ else val
+                return [copy.deepcopy(x) for x in flag_if.body] if taken else []
+            res = _tailify(body, emit)
         elif mode == "assign":
             def emit(v):
+                tg = s.targets[0] if isinstance(s, ast.Assign) and len(s.targets) == 1 else None
+                if isinstance(tg, ast.Tuple) and isinstance(v, ast.Tuple) and len(tg.elts) == len(v.elts) and all(isinstance(e, ast.Name) for e in tg.elts) \
+                        and not ({e.id for e in tg.elts} & {y.id for e2 in v.elts for y in ast.walk(e2) if isinstance(y, ast.Name)}):
+                    # a, b = helper()  with  return x, y :  a = x; b = y  (no name is both read and written)
+                    return [ast.Assign(targets=[copy.deepcopy(t_)], value=e_) for t_, e_ in zip(tg.elts, v.elts)]
                 n2 = copy.deepcopy(s)
                 n2.value = v if v is not None else ast.Constant(value=None)
                 return [n2]
@@ -444,6 +488,32 @@ class Inliner:
             ast.copy_location(st, s)
             ast.fix_missing_locations(st)
         return res
+
+    def _flag_if(self, s: ast.stmt, nxt: Optional[ast.stmt]) -> Optional[ast.If]:
+        """``ok = self._helper(..)`` followed by ``if [not] ok: ...`` (no else), ``ok`` read nowhere else, the helper returning
+        nothing but boolean constants: the ``if`` statement, else None."""
+        if not (isinstance(s, ast.Assign) and len(s.targets) == 1 and isinstance(s.targets[0], ast.Name) and isinstance(nxt, ast.If) and not nxt.orelse):
+            return None
+        hit = self._call_of(s.value)
+        if hit is None:
+            return None
+        flag = s.targets[0].id
+        t = nxt.test
+        if isinstance(t, ast.UnaryOp) and isinstance(t.op, ast.Not):
+            t = t.operand
+        if not (isinstance(t, ast.Name) and t.id == flag):
+            return None
+        fn_owner = getattr(self, "cur_fn", None)
+        if fn_owner is None or sum(1 for x in ast.walk(fn_owner) if isinstance(x, ast.Name) and x.id == flag) != 2:
+            return None
+        fn = self.helpers[hit[1]][1]
+        rets = [x for x in ast.walk(fn) if isinstance(x, ast.Return)]
+        # returns of functions nested in the helper are not its own
+        nested = [y for x in ast.walk(fn) if isinstance(x, (ast.FunctionDef, ast.AsyncFunctionDef, ast.Lambda)) and x is not fn for y in ast.walk(x) if isinstance(y, ast.Return)]
+        rets = [r for r in rets if r not in nested]
+        if not rets or not all(isinstance(r.value, ast.Constant) and isinstance(r.value.value, bool) for r in rets):
+            return None
+        return nxt
 
     def _hoist(self, s: ast.stmt) -> List[ast.stmt]:
         """A statement helper called in the middle of an expression that is evaluated unconditionally
@@ -459,7 +529,12 @@ class Inliner:
             return []
         fld, root = slot
         if self._call_of(root) is not None:
-            return []            # the whole expression is the call: handled by _splice_stmt
+            hit0 = self._call_of(root)
+            fn0 = self.helpers[hit0[1]][1]
+            is_gen0 = any(_has(st, (ast.Yield, ast.YieldFrom)) for st in _body(fn0))
+            if not (isinstance(s, (ast.For, ast.AsyncFor)) and not is_gen0 and _as_expr(_body(fn0)) is None):
+                return []            # the whole expression is the call: handled by _splice_stmt
+            # for x in self._helper(): with a helper that builds and returns a list - the list is given a temporary first
         out: List[ast.stmt] = []
         me = self
 
@@ -525,12 +600,15 @@ class Inliner:
     def _walk_blocks(self, node: ast.AST) -> None:
         if isinstance(node, (ast.FunctionDef, ast.AsyncFunctionDef)):
             saved = getattr(self, "cur_names", set())
+            saved_fn = getattr(self, "cur_fn", None)
+            self.cur_fn = node
             self.cur_names = {x.id for x in ast.walk(node) if isinstance(x, ast.Name)} | {a.arg for a in ast.walk(node) if isinstance(a, ast.arg)}
             try:
                 self._walk_blocks_inner(node)
                 self._inline_exprs_in(node)
             finally:
                 self.cur_names = saved
+                self.cur_fn = saved_fn
             return
         self._walk_blocks_inner(node)
 
@@ -542,10 +620,25 @@ class Inliner:
             blk = getattr(node, fld, None)
             if isinstance(blk, list) and blk and isinstance(blk[0], ast.stmt):
                 new = []
-                for s in blk:
+                skip_next = False
+                for idx_, s in enumerate(blk):
+                    if skip_next:
+                        skip_next = False
+                        continue
                     if isinstance(s, (ast.FunctionDef, ast.AsyncFunctionDef)) and s.name in self.helpers and self.helpers[s.name][1] is s:
                         new.append(s)       # the helper definition itself: handled later
                         continue
+                    fl = self._flag_if(s, blk[idx_ + 1] if idx_ + 1 < len(blk) else None)
+                    if fl is not None:
+                        rep = self._splice_stmt(s, flag_if=fl)
+                        if rep is not None:
+                            nm = self._call_name(s)
+                            self.inlined_sites[nm] = self.inlined_sites.get(nm, 0) + 1
+                            for r in rep:
+                                self._walk_blocks(r)
+                            new.extend(rep)
+                            skip_next = True
+                            continue
                     pre = self._hoist(s)
                     if pre:
                         for h in pre:
@@ -771,9 +864,10 @@ def undo_local_renames(trees: Dict[str, ast.Module]) -> Dict[str, str]:
         ref_params = json.load(fh).get("params", {})
     # parameters first: same number, new names unknown to the reference function, old names unused in it
     for mod, tree in trees.items():
+        qns = [q for q, _, _ in qualnames(tree, mod)]
         for qn, fn, chain in qualnames(tree, mod):
             wantp = ref_params.get(qn)
-            if wantp is None:
+            if wantp is None or qns.count(qn) > 1:          # @overload stubs share a qualified name: nothing to compare with
                 continue
             a_ = fn.args
             args_ = a_.posonlyargs + a_.args + a_.kwonlyargs
